@@ -9,6 +9,7 @@
 
 use std::collections::HashMap;
 use std::ptr::NonNull;
+use std::sync::atomic::{AtomicU64, Ordering::Relaxed};
 use std::sync::{Arc, Mutex};
 use zverif::alloc as zalloc;
 use zverif::sched::{self, Scenario, Sched, SchedSpec};
@@ -17,6 +18,7 @@ use zverif::{check, Fail, Tier};
 use zipora::memory::fixed_capacity_pool::{FixedCapacityAllocation, FixedCapacityMemoryPool, FixedCapacityPoolConfig};
 use zipora::memory::five_level_pool::{FiveLevelPoolConfig, LockFreePool, MemOffset, MutexBasedPool};
 use zipora::memory::lockfree_pool::{BackoffStrategy, LockFreeMemoryPool, LockFreePoolConfig};
+use zipora::memory::pool::{MemoryPool, PoolConfig};
 use zipora::memory::secure_pool::{SecureMemoryPool, SecurePoolConfig, SecurePooledPtr};
 
 #[global_allocator]
@@ -95,15 +97,37 @@ struct LfFace {
     /// number of blocks of `size` a fresh pool of this configuration hands out before it reports exhaustion,
     /// measured once on a fresh pool without threads (None: not measured for this scenario)
     population: Option<usize>,
+    /// successful allocate / deallocate calls made through this face (prefill included)
+    n_alloc: AtomicU64,
+    n_free: AtomicU64,
 }
 impl PoolFace for LfFace {
     fn alloc(&self) -> Result<usize, String> {
-        self.pool.allocate(self.size).map(|p| p.as_ptr() as usize).map_err(|e| e.to_string())
+        let r = self.pool.allocate(self.size).map(|p| p.as_ptr() as usize).map_err(|e| e.to_string());
+        if r.is_ok() {
+            self.n_alloc.fetch_add(1, Relaxed);
+        }
+        r
     }
     fn free(&self, block: usize) -> Result<(), String> {
-        self.pool.deallocate(NonNull::new(block as *mut u8).unwrap(), self.size).map_err(|e| e.to_string())
+        let r = self.pool.deallocate(NonNull::new(block as *mut u8).unwrap(), self.size).map_err(|e| e.to_string());
+        if r.is_ok() {
+            self.n_free.fetch_add(1, Relaxed);
+        }
+        r
     }
-    fn quiescent_check(&self, _live: usize) -> Result<(), Fail> {
+    fn quiescent_check(&self, live: usize) -> Result<(), Fail> {
+        // "the counters it reports add up once all threads have finished": every successful free of a fast-bin block is one
+        // fast_dealloc; every successful allocation is either one pop from the bin (fast_alloc) or one freshly carved block
+        // (memory_usage grows by the block size); every counted pop / push is one successful CAS
+        if let Some(s) = self.pool.stats() {
+            let (fa, fd, ok, mu) = (s.fast_allocs.load(Relaxed), s.fast_deallocs.load(Relaxed), s.cas_successes.load(Relaxed), s.memory_usage.load(Relaxed));
+            let (na, nf) = (self.n_alloc.load(Relaxed), self.n_free.load(Relaxed));
+            check!(na == nf + live as u64, "harness", "harness bookkeeping: {na} allocations != {nf} frees + {live} live");
+            check!(fd == nf, "counters", "stats: fast_deallocs {fd} but {nf} blocks were freed successfully");
+            check!(mu % self.size as u64 == 0 && fa + mu / self.size as u64 == na, "counters", "stats: fast_allocs {fa} + freshly carved blocks {} (memory_usage {mu} / {}) != {na} successful allocations", mu / self.size as u64, self.size);
+            check!(ok == fa + fd, "counters", "stats: cas_successes {ok} != fast_allocs {fa} + fast_deallocs {fd}");
+        }
         Ok(())
     }
     fn population(&self) -> Option<usize> {
@@ -134,7 +158,18 @@ impl PoolFace for FlFace {
     fn free(&self, block: usize) -> Result<(), String> {
         self.pool.free(usize_to_off(block), self.size).map_err(|e| e.to_string())
     }
-    fn quiescent_check(&self, _live: usize) -> Result<(), Fail> {
+    fn quiescent_check(&self, live: usize) -> Result<(), Fail> {
+        // all blocks have one size: every carved byte is either in a live block or on a free list (fragment_size)
+        let s = self.pool.stats();
+        check!(
+            s.used_memory == s.fragment_size + live * self.size,
+            "counters",
+            "stats(): used_memory {} != fragment_size {} + {} live blocks x {} bytes",
+            s.used_memory,
+            s.fragment_size,
+            live,
+            self.size
+        );
         Ok(())
     }
     fn population(&self) -> Option<usize> {
@@ -153,8 +188,56 @@ impl PoolFace for MxFace {
     fn free(&self, block: usize) -> Result<(), String> {
         self.pool.free(usize_to_off(block), self.size).map_err(|e| e.to_string())
     }
-    fn quiescent_check(&self, _live: usize) -> Result<(), Fail> {
+    fn quiescent_check(&self, live: usize) -> Result<(), Fail> {
+        // all blocks have one size: every carved byte is either in a live block or on a free list (fragment_size)
+        let s = self.pool.stats();
+        check!(
+            s.used_memory == s.fragment_size + live * self.size,
+            "counters",
+            "stats(): used_memory {} != fragment_size {} + {} live blocks x {} bytes",
+            s.used_memory,
+            s.fragment_size,
+            live,
+            self.size
+        );
         Ok(())
+    }
+}
+
+// ---- MemoryPool (pool.rs): a mutex-protected free queue that is only ever try_lock'ed ------------------
+
+struct MpFace {
+    pool: MemoryPool,
+    chunk: usize,
+}
+impl PoolFace for MpFace {
+    fn alloc(&self) -> Result<usize, String> {
+        self.pool.allocate().map(|p| p.as_ptr() as usize).map_err(|e| e.to_string())
+    }
+    fn free(&self, block: usize) -> Result<(), String> {
+        self.pool.deallocate(NonNull::new(block as *mut u8).unwrap()).map_err(|e| e.to_string())
+    }
+    fn quiescent_check(&self, live: usize) -> Result<(), Fail> {
+        let s = self.pool.stats();
+        check!(s.alloc_count == s.dealloc_count + live as u64, "counters", "stats(): alloc_count {} != dealloc_count {} + live {}", s.alloc_count, s.dealloc_count, live);
+        check!(s.pool_hits + s.pool_misses == s.alloc_count, "counters", "stats(): pool_hits {} + pool_misses {} != alloc_count {}", s.pool_hits, s.pool_misses, s.alloc_count);
+        check!(s.chunks <= self.pool.config().max_chunks, "counters", "stats(): {} chunks parked in a pool of max_chunks {}", s.chunks, self.pool.config().max_chunks);
+        check!(s.available == (s.chunks * self.chunk) as u64, "counters", "stats(): available {} != chunks {} x chunk_size {}", s.available, s.chunks, self.chunk);
+        // no statistics update is ever contended here (there is no schedule point inside the statistics lock), so the byte
+        // counter is exact: every chunk obtained from the system and not yet returned to it is live or parked in the pool
+        check!(
+            s.allocated == ((live + s.chunks) * self.chunk) as u64,
+            "counters",
+            "stats(): allocated {} bytes != ({} live + {} parked) x chunk_size {}",
+            s.allocated,
+            live,
+            s.chunks,
+            self.chunk
+        );
+        Ok(())
+    }
+    fn drain_extra(&self) -> usize {
+        4
     }
 }
 
@@ -184,7 +267,6 @@ impl PoolFace for FcFace {
     }
     fn quiescent_check(&self, live: usize) -> Result<(), Fail> {
         if let Some(s) = self.pool.stats() {
-            use std::sync::atomic::Ordering::Relaxed;
             let (a, d, act) = (s.allocations.load(Relaxed), s.deallocations.load(Relaxed), s.active_blocks.load(Relaxed));
             check!(a == d + live as u64 && act as usize == live, "counters", "stats: allocations {a} deallocations {d} active_blocks {act}, live blocks held by threads {live}");
         }
@@ -380,7 +462,7 @@ fn lf_face() -> Arc<dyn PoolFace> {
         enable_simd_optimization: false,
         zero_on_free: false,
     };
-    Arc::new(LfFace { pool: LockFreeMemoryPool::new(cfg).expect("lockfree pool"), size: 64, population: None })
+    Arc::new(LfFace { pool: LockFreeMemoryPool::new(cfg).expect("lockfree pool"), size: 64, population: None, n_alloc: AtomicU64::new(0), n_free: AtomicU64::new(0) })
 }
 /// small backing region: the whole population can be drained at quiescence, so a block that a race dropped from the
 /// free structure is noticed ("no block is lost"); the reference population is measured on a fresh pool without threads
@@ -409,7 +491,7 @@ fn lf_face_small() -> Arc<dyn PoolFace> {
         }
         n
     });
-    Arc::new(LfFace { pool: LockFreeMemoryPool::new(lf_small_cfg()).expect("lockfree pool"), size: 64, population: Some(n) })
+    Arc::new(LfFace { pool: LockFreeMemoryPool::new(lf_small_cfg()).expect("lockfree pool"), size: 64, population: Some(n), n_alloc: AtomicU64::new(0), n_free: AtomicU64::new(0) })
 }
 fn fl_cfg() -> FiveLevelPoolConfig {
     let mut c = FiveLevelPoolConfig::default();
@@ -465,6 +547,10 @@ fn mx_face() -> Arc<dyn PoolFace> {
 fn fc_face_with(eager: bool) -> Arc<dyn PoolFace> {
     let cfg = FixedCapacityPoolConfig { max_block_size: 64, total_blocks: 3, alignment: 8, enable_stats: true, eager_allocation: eager, secure_clear: false };
     Arc::new(FcFace { pool: Box::new(FixedCapacityMemoryPool::new(cfg).expect("fixed-capacity pool")), size: 64, total: 3, held: Mutex::new(HashMap::new()) })
+}
+fn mp_face() -> Arc<dyn PoolFace> {
+    // max_chunks = 2: the third chunk freed while two are parked goes straight back to the system
+    Arc::new(MpFace { pool: MemoryPool::new(PoolConfig::new(64, 2, 8)).expect("memory pool"), chunk: 64 })
 }
 fn fc_face() -> Arc<dyn PoolFace> {
     fc_face_with(true)
@@ -538,6 +624,26 @@ fn main() {
             threads: vec![vec![Alloc, Alloc, Give, FreeOldest], vec![Alloc, FreeGiven, FreeOldest]],
             bound_quick: 2,
             bound_thorough: 4,
+            uaf_site: None,
+        }));
+        // MemoryPool: the free queue is only ever try_lock'ed; a thread parked inside the critical section makes the other
+        // thread's try_lock fail for real (miss path: fresh chunk / direct free)
+        reg.add(Sched(PoolSpec {
+            name: "MemoryPool[max_chunks=2] H6a: 2 threads, try_lock contention",
+            make: mp_face,
+            prefill: 2,
+            threads: vec![vec![Alloc, Alloc, FreeOldest, FreeOldest], vec![Alloc, FreeOldest, Alloc]],
+            bound_quick: 2,
+            bound_thorough: 4,
+            uaf_site: None,
+        }));
+        reg.add(Sched(PoolSpec {
+            name: "MemoryPool[max_chunks=2] H6b: 3 threads, cross-thread free",
+            make: mp_face,
+            prefill: 1,
+            threads: vec![vec![Alloc, Give, Alloc, FreeOldest], vec![FreeGiven, Alloc, FreeOldest], vec![Alloc, FreeOldest]],
+            bound_quick: 2,
+            bound_thorough: 3,
             uaf_site: None,
         }));
         reg.add(Sched(PoolSpec { name: "five_level::MutexBasedPool H5: 2 threads (control)", make: mx_face, prefill: 3, threads: aba2.clone(), bound_quick: 2, bound_thorough: 4, uaf_site: None }));
